@@ -8,7 +8,7 @@ import (
 
 func init() {
 	registerProp(&PropSpec{ID: "C16", Title: "The debugger command interface is total", MinObls: 150,
-		Classes:     regexp.MustCompile(`^(safe|lock|escape|inv|pre|post|assert|frame)`),
+		Classes:     regexp.MustCompile(`^(safe|lock|escape|inv|pre|post|assert|finding|frame)`),
 		TrustedBase: []string{"zero-annotation safety obligations: one per instruction that can panic (nil dereference, index/slice bounds, unchecked type assertion, nil map write, division by zero, explicit panic/assert)", "native model of sync primitives (lock balance: no debugger lock is left held)"},
 		Assumptions: []string{"library functions called by the handlers do not panic on non-nil arguments (strconv, strings, fmt, json)", "evaluation of injected expressions does not panic (C06)",
 			"the debugger state is the one NewECALDebugger establishes plus what the visit hooks add: call stacks hold call nodes with tokens, interrogation states carry the node and scope they were created with"},
@@ -64,6 +64,38 @@ func TestVerifReplay(t *testing.T) {
 	}
 	verifCmd(dbg, fmt.Sprintf("cont %v stepout", tid))
 	dbg.StopThreads(0)
+
+	// 3. inject with an expression that calls a function of the debugged program (watchdog: the
+	// command handler must come back)
+	erp3 := NewECALRuntimeProvider("replay3", nil, util.NewMemoryLogger(10))
+	vs3 := scope.NewScope(scope.GlobalScope)
+	dbg3 := NewECALDebugger(vs3)
+	dbg3.BreakOnError(false)
+	erp3.Debugger = dbg3
+	ast3, err := parser.ParseWithRuntime("replay3", "func f() {\n return 1\n}\nb := 2\nc := 3\n", erp3)
+	if err != nil {
+		t.Fatal(err)
+	}
+	if err = ast3.Runtime.Validate(); err != nil {
+		t.Fatal(err)
+	}
+	dbg3.SetBreakPoint("replay3", 5)
+	tid3 := erp3.NewThreadID()
+	go ast3.Runtime.Eval(vs3, make(map[string]interface{}), tid3)
+	for i := 0; i < 2000; i++ {
+		if d, ok := dbg3.Describe(tid3).(map[string]interface{}); ok && d["threadRunning"] == false {
+			break
+		}
+		time.Sleep(time.Millisecond)
+	}
+	line := fmt.Sprintf("inject %v x f()", tid3)
+	back := make(chan bool, 1)
+	go func() { verifCmd(dbg3, line); back <- true }()
+	select {
+	case <-back:
+	case <-time.After(3 * time.Second):
+		fmt.Printf("REPLAY-CMD %q HANG the command handler did not come back within 3 s\n", line)
+	}
 	fmt.Println("REPLAY-DONE")
 }
 `
@@ -79,6 +111,8 @@ func c16Replay(c *Checker, o *Obl) map[string]interface{} {
 		cmd = "lockstate"
 	case strings.Contains(o.ID, "Continue") || strings.Contains(o.ID, "contCommand"):
 		cmd = "stepout"
+	case strings.Contains(o.ID, "InjectValue"):
+		cmd = "inject"
 	default:
 		return nil
 	}
@@ -93,7 +127,7 @@ func c16Replay(c *Checker, o *Obl) map[string]interface{} {
 	for _, l := range strings.Split(c16ReplayCache, "\n") {
 		if strings.HasPrefix(l, "REPLAY-CMD") && strings.Contains(l, cmd) {
 			rp["outcome"] = l
-			if strings.Contains(l, "PANIC") {
+			if strings.Contains(l, "PANIC") || strings.Contains(l, "HANG") {
 				rp["confirmed"] = true
 			}
 		}
